@@ -570,6 +570,14 @@ impl Connection {
         }
     }
 
+    /// The length prefix of a distribution frame is 32 bits wide.
+    fn frame_length(len: usize) -> Result<u32> {
+        u32::try_from(len).map_err(|_| Error::MessageTooLarge {
+            size: len,
+            max: u32::MAX as usize,
+        })
+    }
+
     async fn send_control_message(
         &mut self,
         control: ControlMessage,
@@ -591,6 +599,7 @@ impl Connection {
             if let Some(msg) = message {
                 let msg_encoded = erltf::encode(&msg)?;
                 let total_len = 1 + control_encoded.len() + msg_encoded.len();
+                let frame_len = Self::frame_length(total_len)?;
                 trace!(
                     "Sending pass-through message: control_len={}, msg_len={}, total_len={}",
                     control_encoded.len(),
@@ -603,7 +612,7 @@ impl Connection {
                     .write_half_mut()
                     .ok_or_else(|| Error::InvalidStateMessage("no active stream".to_string()))?;
 
-                stream.write_u32(total_len as u32).await?;
+                stream.write_u32(frame_len).await?;
                 #[cfg(edp_rs_verif)]
                 crate::verif_hooks::yield_point("send:after_len").await;
                 stream.write_u8(PASS_THROUGH).await?;
@@ -616,6 +625,7 @@ impl Connection {
                 stream.flush().await?;
             } else {
                 let total_len = 1 + control_encoded.len();
+                let frame_len = Self::frame_length(total_len)?;
                 trace!(
                     "Sending pass-through control: control_len={}, total_len={}",
                     control_encoded.len(),
@@ -627,7 +637,7 @@ impl Connection {
                     .write_half_mut()
                     .ok_or_else(|| Error::InvalidStateMessage("no active stream".to_string()))?;
 
-                stream.write_u32(total_len as u32).await?;
+                stream.write_u32(frame_len).await?;
                 #[cfg(edp_rs_verif)]
                 crate::verif_hooks::yield_point("send:after_len").await;
                 stream.write_u8(PASS_THROUGH).await?;
@@ -643,7 +653,7 @@ impl Connection {
 
         if let Some(msg) = message {
             let encoded = erltf::encode_with_dist_header_multi(&[&control_term, &msg])?;
-            buf.put_u32(encoded.len() as u32);
+            buf.put_u32(Self::frame_length(encoded.len())?);
             buf.put_slice(&encoded);
 
             trace!("Sending DIST_HEADER message: total_len={}", encoded.len());
@@ -653,7 +663,7 @@ impl Connection {
             );
         } else {
             let encoded = erltf::encode_with_dist_header(&control_term)?;
-            buf.put_u32(encoded.len() as u32);
+            buf.put_u32(Self::frame_length(encoded.len())?);
             buf.put_slice(&encoded);
 
             trace!("Sending DIST_HEADER control: total_len={}", encoded.len());
